@@ -43,6 +43,9 @@ def _docs():
                   [Note('4', pitch='c', acc='#', decs=((3, 'L'),)), lyr('la'), Note('2', dots=1, pitch='GG')],
                   [Chord((Note('8', pitch='e'), Note('8', pitch='g', acc='-', decs=((3, 'J'),)))), Null('.'), Rest('4', decs=((3, ';'),))],
                   [Null('.'), lyr('li'), Null('.')],
+                  # an invisible barline: written as a null line under every option set (KF-C03-hidden-barline), also under the defaults
+                  [Bar(number='2', hidden=True), Bar(number='2', hidden=True), Bar(number='2', hidden=True)],
+                  [Note('4', pitch='d'), lyr('lu'), Note('4', pitch='AA')],
                   # local comments confined to one spine ('!' is the empty local comment: a cell like any other, not a null token)
                   [FieldComment('!x'), FieldComment('!'), FieldComment('!')], [FieldComment('!'), FieldComment('!'), FieldComment('!z')],
                   [Bar(double=True), Bar(double=True), Bar(double=True)], [Op(T), Op(T), Op(T)]]))
@@ -289,6 +292,48 @@ def _d_body(pre, d):
     return True
 
 
+# ------------------------------------------------------------------ C13.e the public keyword route: every subset (also empty, unordered, tuple)
+IDSETS = ([], [0], [1], [2], [0, 1], [0, 2], [1, 2], [0, 1, 2], [2, 0], [1, 0], (2, 1, 0), None)
+TYPESETS = ([], ['**kern'], ['**text'], ['**dynam'], ['**kern', '**text'], ['**dynam', '**kern'], ['**text', '**dynam'], ['**dynam', '**text', '**kern'], None)
+CATSELS = ({}, {'exclude': ['DECORATION']}, {'include': ['CORE', 'STRUCTURAL', 'SIGNATURES']}, {'exclude': ['COMMENTS', 'NOTE']},
+           {'include': ['PITCH'], 'exclude': ['PITCH']}, {'include': ['NOTE_REST', 'HEADER'], 'exclude': ['NOTE_REST']}, {'include': []},
+           {'include': ['CHORD', 'DURATION', 'PITCH', 'HEADER', 'SPINE_OPERATION']})
+
+
+def ob_e(d: int, e: int, i: int, t: int, z: int) -> bool:
+    assume(0 <= d < len(DOCS) and 0 <= e < 6 and 0 <= i < len(IDSETS) and 0 <= t < len(TYPESETS) and 0 <= z < len(CATSELS))
+    return _e_body(choose(d, len(DOCS)), choose(e, 6), choose(i, len(IDSETS)), choose(t, len(TYPESETS)), choose(z, len(CATSELS)))
+
+
+@native
+def _e_body(di, e, i, t, z):
+    """kp.dumps with all three option families given as the user writes them (lists in any order, tuples, empty selections, None):
+    the export is the cell model under (encoding, closure(include) - closure(exclude), columns whose spine id and type are selected)."""
+    from sv.ref import cats as refcats
+    D, doc, errs, conv, spine, header = get(di)
+    ids, types, sel = IDSETS[i], TYPESETS[t], CATSELS[z]
+    tree = refcats.Model(refcats.documented()[0])
+    inc = NAMES if 'include' not in sel else sorted({x for c in sel['include'] for x in tree.closure(c)})
+    drop = {x for c in sel.get('exclude', ()) for x in tree.closure(c)}
+    selected = set(inc) - drop
+    if selected and not (('DURATION' in selected) or ('PITCH' in selected)):
+        return True               # outside C04's restriction for the basic encodings
+    kw = {}
+    if ids is not None:
+        kw['spine_ids'] = type(ids)(ids)
+    if types is not None:
+        kw['spine_types'] = list(types)
+    for k2 in ('include', 'exclude'):
+        if k2 in sel:
+            kw[k2] = [TC[x] for x in sel[k2]]
+    got = cells.parse_grid(kp.dumps(doc, encoding=ENC[e], **kw))
+    exp = D.expected(ENC_NAMES[e], keep=lambda nm: nm in selected,
+                     col_keep=lambda r, j: (types is None or header[(r, j)] in types) and (ids is None or spine[(r, j)] in ids),
+                     to_agnostic=conv if e >= 4 else None)
+    check(cells.rows_equal(got, exp), f'dumps(doc, encoding={ENC_NAMES[e]}, {kw}): exported {got}, composition of the three single-option transformations {exp}')
+    return True
+
+
 OBLIGATIONS = [
     Ob(id='C13.d', fn=ob_d, title='histories from the first call of a fresh interpreter: combined options still equal the composition of the single-option transformations',
        shard_of=lambda pre, d: pre, shards={'quick': 5, 'thorough': 5}, budget_s={'quick': 150, 'thorough': 600}, native_body=True,
@@ -306,6 +351,11 @@ OBLIGATIONS = [
        shard_of=lambda d, k, variant, other: k, shards={'quick': 9, 'thorough': 9}, budget_s={'quick': 120, 'thorough': 600},
        witnesses=[{'d': 0, 'k': 1, 'variant': 2, 'other': 1}], min_confirmed=200, enumerated='document, keyword (9), default spelling (3), other option (9)',
        bounds={'quick': '2 x 9 x 3 x 9', 'thorough': 'same'}),
+    Ob(id='C13.e', fn=ob_e, title='public keywords: every subset of spine ids / types as written by a user (empty, unordered, tuple, None) x category selections x encodings == cell model',
+       shard_of=lambda d, e, i, t, z: i + 12 * t, shards={'quick': 16, 'thorough': 16}, budget_s={'quick': 150, 'thorough': 900},
+       witnesses=[{'d': 0, 'e': 1, 'i': 5, 't': 4, 'z': 1}, {'d': 1, 'e': 0, 'i': 0, 't': 8, 'z': 0}], min_confirmed=3000,
+       enumerated='document (2), encoding (6), spine-id selection (12), spine-type selection (9), category selection (8)',
+       bounds={'quick': '2 x 6 x 12 x 9 x 8 = 10 368 calls of kp.dumps', 'thorough': 'same'}),
     Ob(id='C13.c', fn=ob_c, title='the text exported for a cell does not depend on its neighbours (per encoding and selection)',
        shard_of=lambda a, b, pos, e, s: a + 6 * e, shards={'quick': 12, 'thorough': 12}, budget_s={'quick': 150, 'thorough': 900},
        witnesses=[{'a': 0, 'b': 2, 'pos': 1, 'e': 1, 's': 1}], min_confirmed=1500, enumerated='cell A, neighbour B (6 x 6), position of B (4), encoding (6), exclusion (4)',
